@@ -304,9 +304,19 @@ def run(chk):
     granular(chk, chk.rng, quick)
     end_to_end(chk, chk.rng, 24 if quick else 400)
     replay_findings(chk)
+    if not quick:
+        chk.coqchk(["Ford.Props.C08"])
 
 
 def replay(chk, rep):
+    import shutil
+    try:
+        return _replay(chk, rep)
+    finally:
+        shutil.rmtree(chk.tmp, ignore_errors=True)
+
+
+def _replay(chk, rep):
     chk.build(["theories/Corr/C08.vo"])
     if "files" in rep:
         err, res = I.run_project(rep["files"])
